@@ -782,16 +782,45 @@ Qed.
 
 (* ---- 3g. asyncRemove, one round of phase 2, any cap *)
 
+(* removableTxForRemoveWallet reads the keystore table and (repaired: f_removable_debit) the credit rows
+   that do not carry one of [shs]: the rows removeRelevantCredit has deleted before do not matter *)
+Lemma existsb_filter_sub : forall (A : Type) (g q : A -> bool) l,
+  (forall x, g x = true -> q x = true) -> existsb g (filter q l) = existsb g l.
+Proof.
+  intros A g q l H. induction l as [|a r IH]; [reflexivity|]. cbn [filter existsb].
+  destruct (q a) eqn:Hq; cbn [existsb]; rewrite IH; [reflexivity|].
+  destruct (g a) eqn:Hg; [rewrite (H a Hg) in Hq; discriminate|reflexivity].
+Qed.
+
+Lemma existsb_ext_in : forall (A : Type) (f g : A -> bool) l,
+  (forall x, In x l -> f x = g x) -> existsb f l = existsb g l.
+Proof.
+  intros A f g l H. induction l as [|a r IH]; [reflexivity|]. cbn [existsb].
+  rewrite (H a (or_introl eq_refl)), IH; [reflexivity|]. intros x Hx. apply H. right. assumption.
+Qed.
+
 Lemma removable_keys : forall st1 st2 shs t, x_keys st1 = x_keys st2 ->
+  filter (fun c => negb (memN (c_sh c) shs)) (credits (x_w st1)) =
+  filter (fun c => negb (memN (c_sh c) shs)) (credits (x_w st2)) ->
   removable fx st1 shs n t = removable fx st2 shs n t.
-Proof. intros st1 st2 shs t H. unfold removable, spends_other, key_owner. rewrite H. reflexivity. Qed.
+Proof.
+  intros st1 st2 shs t H Hc. unfold removable, spends_other, spends_other_db, key_owner. rewrite H.
+  destruct (f_removable_debit fx); [|reflexivity].
+  do 4 f_equal. apply existsb_ext_in. intros op _.
+  rewrite <- (existsb_filter_sub _ _ (fun c => negb (memN (c_sh c) shs)) (credits (x_w st1))).
+  - rewrite Hc. apply existsb_filter_sub.
+    intros c Hg. apply andb_true_iff in Hg. destruct Hg as [Hg _]. apply andb_true_iff in Hg. tauto.
+  - intros c Hg. apply andb_true_iff in Hg. destruct Hg as [Hg _]. apply andb_true_iff in Hg. tauto.
+Qed.
 
 Lemma repair_keys : forall st1 st2 shs lookup, x_keys st1 = x_keys st2 ->
+  filter (fun c => negb (memN (c_sh c) shs)) (credits (x_w st1)) =
+  filter (fun c => negb (memN (c_sh c) shs)) (credits (x_w st2)) ->
   forall hot brs, repair fx st1 shs n lookup brs hot = repair fx st2 shs n lookup brs hot.
 Proof.
-  intros st1 st2 shs lookup H hot. induction hot as [|[t h] r IH]; intros brs; [reflexivity|].
+  intros st1 st2 shs lookup H Hc hot. induction hot as [|[t h] r IH]; intros brs; [reflexivity|].
   cbn [repair]. destruct (listed_at brs h t); [|apply IH].
-  destruct (lookup t) as [tx0|]; [|apply IH]. rewrite (removable_keys st1 st2 shs tx0 H). apply IH.
+  destruct (lookup t) as [tx0|]; [|apply IH]. rewrite (removable_keys st1 st2 shs tx0 H Hc). apply IH.
 Qed.
 
 Lemma round_prog_propagates : forall cap lookup w, propagates tt (round_prog fx n cap lookup w).
@@ -825,15 +854,19 @@ Proof.
   destruct (memN w (x_p1 st)); [|reflexivity].
   rewrite exec_Call. cbv zeta.
   match goal with |- context [match sh_of_wallet st w with [] => ?a | _ :: _ => ?b end] =>
-    destruct (match sh_of_wallet st w with [] => a | _ :: _ => b end) as [[kept hot] fin] end.
+    destruct (match sh_of_wallet st w with [] => a | _ :: _ => b end) as [[kept hot] fin] eqn:Hrm end.
   rewrite exec_Write. cbn [fst snd].
+  assert (Hkept : filter (fun c => negb (memN (c_sh c) (sh_of_wallet st w))) kept =
+                  filter (fun c => negb (memN (c_sh c) (sh_of_wallet st w))) (credits (x_w st))).
+  { destruct (sh_of_wallet st w) as [|s0 sr]; [inversion Hrm; reflexivity|].
+    apply (rm_credits_others _ _ _ _ _ _ _ _ Hrm). }
   assert (Hrep : with_brecs (with_w st {| credits := kept; synced := synced (x_w st) |})
                    (repair fx (with_w st {| credits := kept; synced := synced (x_w st) |})
                       (sh_of_wallet (with_w st {| credits := kept; synced := synced (x_w st) |}) w) n lookup
                       (x_brecs (with_w st {| credits := kept; synced := synced (x_w st) |})) hot) =
                  with_brecs (with_w st {| credits := kept; synced := synced (x_w st) |})
                    (repair fx st (sh_of_wallet st w) n lookup (x_brecs st) hot)).
-  { f_equal. apply repair_keys. reflexivity. }
+  { f_equal. apply repair_keys; [reflexivity|exact Hkept]. }
   rewrite Hrep. clear Hrep.
   destruct fin.
   - rewrite exec_Write, exec_Write. reflexivity.
